@@ -170,3 +170,69 @@ Definition ifaces_without_asn (p : pred) : bool :=
   | None, _ => true
   | Some _, _ => false
   end.
+
+(** * Token-level grammar of hop-pattern expressions (for the parser theorems)
+
+    [post_k e ks]: the token kinds [ks] spell [e] at "postfix level" (a predicate, a
+    parenthesised expression, or one of those followed by [?], [+], [*]); [or_k e ks]: a
+    left-associated [|]-chain of postfix-level pieces.  Parentheses may be nested around any
+    sub-expression any number of times: every redundant pair is just another use of
+    [PK_paren].  [pred_of] abstracts the predicate text parser. *)
+Section Grammar.
+  Variable pred_of : list N -> option pred.
+
+  Inductive post_k : expr -> list tkind -> Prop :=
+  | PK_pred s p : pred_of s = Some p -> post_k (EPred p) [KPred s]
+  | PK_paren e ks : or_k e ks -> post_k e (KLParen :: ks ++ [KRParen])
+  | PK_opt e ks : post_k e ks -> post_k (EOpt e) (ks ++ [KQMark])
+  | PK_plus e ks : post_k e ks -> post_k (EPlus e) (ks ++ [KPlus])
+  | PK_star e ks : post_k e ks -> post_k (EStar e) (ks ++ [KStar])
+  with or_k : expr -> list tkind -> Prop :=
+  | OK_post e ks : post_k e ks -> or_k e ks
+  | OK_or a b ka kb : or_k a ka -> post_k b kb -> or_k (EOr a b) (ka ++ KOr :: kb).
+End Grammar.
+
+(** ** text of a token sequence with optional whitespace in front of every token *)
+Definition tok_text (k : tkind) : list N :=
+  match k with
+  | KPred s => s
+  | KBang => [33] | KAnd => [38] | KOr => [124] | KLParen => [40] | KRParen => [41]
+  | KQMark => [63] | KPlus => [43] | KStar => [42]
+  | KEOI => []
+  end.
+
+(** the whitespace the pattern lexer skips between tokens: space, tab, newline *)
+Definition skip_ws (w : list N) : bool :=
+  forallb (fun c => (c =? 32) || (c =? 9) || (c =? 10)) w.
+
+Definition render (items : list (list N * tkind)) (trail : list N) : list N :=
+  flat_map (fun it : list N * tkind => fst it ++ tok_text (snd it)) items ++ trail.
+
+(** a character that can stand inside a hop-predicate token: not an operator / parenthesis
+    character and not (Unicode) whitespace *)
+Definition plain_char (c : N) : bool :=
+  negb (existsb (N.eqb c) [33; 38; 124; 40; 41; 43; 63; 42])
+  && negb (((9 <=? c) && (c <=? 13)) || (c =? 32) || (c =? 133) || (c =? 160) || (c =? 5760)
+           || ((8192 <=? c) && (c <=? 8202)) || (c =? 8232) || (c =? 8233) || (c =? 8239)
+           || (c =? 8287) || (c =? 12288)).
+
+Definition kind_ok (k : tkind) : bool :=
+  match k with
+  | KPred s => negb (match s with [] => true | _ => false end) && forallb plain_char s
+  | KEOI => false
+  | _ => true
+  end.
+
+(** well-formed rendering: whitespace from the skipped set, sensible tokens, and two
+    adjacent predicate tokens separated by at least one whitespace character *)
+Fixpoint items_ok (items : list (list N * tkind)) : bool :=
+  match items with
+  | [] => true
+  | (w, k) :: r =>
+    skip_ws w && kind_ok k
+    && match k, r with
+       | KPred _, (w2, KPred _) :: _ => negb (match w2 with [] => true | _ => false end)
+       | _, _ => true
+       end
+    && items_ok r
+  end.
